@@ -205,6 +205,10 @@ def run_versions(ch):
                 ok = any(g == (exp[i][0], [n for _, n in exp[i][1]]) for i in carriers)
                 if not ok:
                     fails.append(('verdef.get_version(%d)' % q, 'entry %r' % carriers, g))
+                # the same question again on the same section object (its auxiliaries consumed again) has the same answer
+                g_again = guarded(lambda: (lambda r: None if r is None else (plain(r[0].entry), [a.name for a in r[1]]))(vd.get_version(q)))
+                if g_again != g:
+                    fails.append(('verdef.get_version(%d) asked twice' % q, 'the same answer', g_again))
     # ---- verneed
     vn = guarded(elf.get_section, rsec.index)
     if type(vn).__name__ != 'GNUVerNeedSection':
